@@ -3,6 +3,7 @@
 package app
 
 import (
+	"strings"
 	"github.com/f1bonacc1/process-compose/src/types"
 )
 
@@ -137,5 +138,63 @@ func VerifC08_Concurrent() {
 	<-runDone
 	verifQuiesce()
 	verifAssert("nothing.alive.at.end", vAliveTotal() == 0)
+	verifReach("end")
+}
+
+// C08 (bulk stop): StopProcesses stops every named process that is running and reports, per
+// name, what happened; the request as a whole fails (an error is returned) exactly when at
+// least one of the names could not be stopped - whatever the order of the names.
+func VerifC08_BulkStop() {
+	w := vInit()
+	names := []string{"a", "b", "c"}
+	confs := []types.ProcessConfig{}
+	for _, n := range names {
+		confs = append(confs, vConf(n, nil))
+		w.behav[n] = &vBehav{untilStop: []bool{true}}
+	}
+	r := vRunner(vProject(confs...), false)
+	runDone := make(chan error, 1)
+	go func() { runDone <- r.Run() }()
+	verifQuiesce()
+	_ = r.StopProcess("a") // a is not running any more when the bulk request arrives
+	verifQuiesce()
+	// the request: two or three names out of {a (stopped), b, c (running), ghost (unknown)}, every order
+	pool := []string{"a", "b", "c", "ghost"}
+	k := 2 + verifChooseK("names", 2)
+	var req []string
+	used := map[int]bool{}
+	for i := 0; i < k; i++ {
+		j := verifChooseK("name."+string(rune('0'+i)), len(pool))
+		if used[j] {
+			verifAssume(false)
+		}
+		used[j] = true
+		req = append(req, pool[j])
+	}
+	verifShape(strings.Join(req, ","))
+	wantFail := 0
+	for _, n := range req {
+		if n == "a" || n == "ghost" {
+			wantFail++
+		}
+	}
+	res, err := r.StopProcesses(req) // REAL code
+	verifQuiesce()
+	verifAssert("error.iff.some.name.failed", (err != nil) == (wantFail > 0))
+	for _, n := range req {
+		if n == "b" || n == "c" {
+			verifAssert("running.process.stopped", vGet(w.alive, n) == 0)
+			verifAssert("result.lists.stopped.process", res[n] == "ok")
+		} else {
+			verifAssert("result.lists.failed.name", res[n] != "ok" && res[n] != "")
+		}
+	}
+	for _, n := range []string{"b", "c"} {
+		if !used[map[string]int{"b": 1, "c": 2}[n]] {
+			verifAssert("unnamed.process.untouched", vGet(w.alive, n) == 1)
+		}
+	}
+	_ = r.ShutDownProject()
+	<-runDone
 	verifReach("end")
 }
